@@ -172,7 +172,16 @@ HANG_IS_VIOLATION = False
 WALL = {"quick": 130, "thorough": 1400}
 MAX_STEPS = 400_000
 RULE = (
-    "three legs: seq and conc 4/9 of the generated cases each, v2 1/9, plus ten enumerated families. "
+    "three legs: seq and conc 4/9 of the generated cases each, v2 1/9, plus twelve enumerated families. "
+    "Shape ':'-FREE JSON TEXT / EMPTY CONTEXT of leg seq (an eighth of the generated seq cases; also: the empty object {} is one of the context contents of every supplied history): conversation A either begins with the EMPTY "
+    "context message {role: context, content: {}} (2/3) or has the first user text '{}' / '[]' / '{ }' (1/3; '{}' 3/5) - the JSON texts without ':' - followed by 1-3 (+0-1 later) turns of distinct ':'-free tokens with replies from the "
+    "case table; conversation B arrives with a client-supplied history that re-spells A's transcript after a drawn turn: every role swapped, the context message as its JSON text in a user message - or, the other way round (respell "
+    "key 'ctx'), a leading text that is the JSON text of an object as the context message it spells - optionally one more assistant message, then 1-2 turns of its own; schedule A.. | B.. | A goes on (3/4) or drawn; optional third "
+    "ordinary conversation; half in general mode, half on any configuration; enumerated family of the same name (both forms, general mode / dialog rails - quick 3 cases, thorough 36 over texts x lengths x configuration). Oracle unchanged (differential + cache model). "
+    "LLM variant DECLARED PARAMETER CONFIGURED AS None (llm = opt0/opt1/opt2, a quarter of the LLM draws of the seq / conc legs): temperature / max_tokens are declared fields of the LLM object of which max_tokens / temperature / both "
+    "are configured as None (Optional field, the provider's 'unset'), next to a model_kwargs dict ({} or {top_p}); a call runs with the model_kwargs entry of a parameter if there is one, else with the field; two thirds of the seq cases "
+    "with such an LLM have a conversation whose options.llm_params names a None-configured parameter (the tasks' own llm_params(temperature=...) of dialog rails / self-check reach an unset temperature without any option); enumerated "
+    "family of the same name (A with llm_params, B without, A1 B1 A2 B2; general mode / dialog rails - quick 3 cases, thorough 27). Oracle unchanged: parameters at rest (attributes AND model_kwargs) = configured after every turn, call parameters vs isolated replay. "
     "Case dimension LLM ERRORS of leg seq (a fifth of the ordinary seq cases): the provider FAILS (the fake LLM raises instead of completing) for the prompts of 1-2 drawn tasks of the configuration - general, "
     "generate_user_intent, generate_bot_message, self_check_input, self_check_output: every `with llm_params` site of a Colang 1.0 turn whose prompt shows the current user text - when that text carries a marker; 1-2 "
     "conversations have 1-2 such turns (spec key 'boom'), so a request fails inside a parameterised call (generate raises LLMCallException, the same in the isolated replay) before / between the turns of the other "
@@ -244,6 +253,8 @@ RULE = (
     "v2 = LLM-generated flows were added for at least two conversations on the shared instance. Distinct by case hash; only cases on which the property held are counted."
 )
 ASSUMPTIONS = [
+    "empty context / ':'-free JSON texts: a context message with an empty object and user texts such as '{}' are ordinary messages (the message format puts no constraint on them); a supplied history that has '{}' as a TEXT where another conversation had the empty CONTEXT message (or vice versa) is a different message list, hence a different conversation - only compared with its isolated replay",
+    "LLM variant opt<n>: a declared field whose configured value is None is still an attribute of the LLM object - the unchanged tree's LLMParams sets and restores it as an attribute and never touches model_kwargs (observed: at rest max_tokens None, model_kwargs unchanged), which is what the statement's last sentence demands; the defect model of F9b treats these variants like the field variant (model_kwargs constant), F9c (an explicit None ADDED to model_kwargs, attributes unchanged) cannot arise and is not matched for them",
     "LLM errors: a provider failure is part of 'the LLM's answers to the prompts': the fake LLM raises for a prompt as a pure function of (case policy, task, prompt), so the same request fails alone and on the shared instance; what generate does with the failure (the unchanged tree raises LLMCallException to the caller) is not judged beyond the differential; the caller keeps the failed user message in the history it sends next, as it does in the isolated replay. That LLMParams restores the parameters when the call inside the block raises is the unchanged tree's behaviour and what the statement's last sentence demands (no request in flight -> configured parameters); the defect model of F9b/F9c treats a block's exit the same whether the body raised or not",
     "context variable in a predefined message: `$user_name` in a bot message is filled from the context of the conversation being served (documented); a conversation that never set it gets whatever the unchanged tree renders for an undefined variable (an empty text) - not judged, only compared with its isolated replay. The canary conversation runs on an instance of its own (never the shared one or a replay's), which by the statement cannot influence anything; its name is used by no conversation of a case",
     "the LLM is a pure function of the prompt (statement: 'and the LLM's answers to the prompts built from them'); fake rails are pure functions of the text they see",
@@ -277,7 +288,7 @@ def _dg(s):
 
 ATOMS = ["a", "b", "a:b", ":", "b:", "b:a", "hi", "hello there", '{"k": "a"}', '{"k": "a"}:a', fakes.PREDEF["greet"], "tell me a joke", "c"]
 REPLY_ATOMS = ["a", "b", "a:b", ":", "b:", "hi", "c"]
-CONTEXTS = [{"k": "a"}, {"k": "a:b"}, {"relevant_chunks": "a:b"}, {"user_name": "b"}]
+CONTEXTS = [{"k": "a"}, {"k": "a:b"}, {"relevant_chunks": "a:b"}, {"user_name": "b"}, {}]
 INTENTS = [fakes.ROUTES[r][0] for r in ("predef", "predef", "llm", "pl", "lp", "ll", "next_llm", "next_predef", "act_llm")]
 
 
@@ -665,8 +676,10 @@ class DefectModel:
     finding only if it is EXACTLY what this model predicts for the schedule of the case; anything else is a violation."""
 
     def __init__(self, llm_spec, configured, events):
-        self.kw = llm_spec != "field"
-        state = dict(configured["model_kwargs"]) if self.kw else dict(configured)
+        self.kw = str(llm_spec).startswith("kw")
+        # variant opt<n>: declared fields (also those configured as None) are attributes for LLMParams; model_kwargs is never touched
+        self.mk = None if self.kw or "model_kwargs" not in configured else dict(configured["model_kwargs"])
+        state = dict(configured["model_kwargs"]) if self.kw else {k: v for k, v in configured.items() if k != "model_kwargs"}
         self.configured = dict(state)
         saved = {}
         self.timeline = [(0, dict(state))]
@@ -706,6 +719,8 @@ class DefectModel:
 
     def snapshot_at(self, tick):
         s = self.at(tick)
+        if self.mk is not None:
+            return dict(s, model_kwargs=dict(self.mk))
         return {"model_kwargs": dict(s)} if self.kw else dict(s)
 
     def value_at(self, tick, field):
@@ -877,9 +892,43 @@ class KwargsLLM(LLM):
 KW_CONFIGS = [{"temperature": 0.7, "max_tokens": 128}, {"temperature": 0.7}, {}]
 
 
+class FieldOptLLM(FieldLLM):
+    """Variant "opt<n>": the parameters are DECLARED fields, but one or both are configured as None (the provider's "unset":
+    `max_tokens: Optional[int] = None`, as in most LangChain providers), and the object also has `model_kwargs` (extra
+    parameters forwarded to the provider).  A call runs with the model_kwargs entry of a parameter when there is one, else
+    with the field (providers merge model_kwargs over their default parameters)."""
+
+    temperature: Optional[float] = 0.7
+    max_tokens: Optional[int] = None
+    model_kwargs: Dict[str, Any] = {}
+
+    def _begin(self, prompt, stop):
+        out = super()._begin(prompt, stop)
+        mk = self.model_kwargs
+        out[4].update(t_start=mk.get("temperature", self.temperature), mt_start=mk.get("max_tokens", self.max_tokens))
+        return out
+
+    def _finish(self, session, rec, answer):
+        answer = super()._finish(session, rec, answer)
+        mk = self.model_kwargs
+        rec.update(t_end=mk.get("temperature", self.temperature), mt_end=mk.get("max_tokens", self.max_tokens))
+        return answer
+
+    def snapshot(self):
+        return {"temperature": self.temperature, "max_tokens": self.max_tokens, "model_kwargs": dict(self.model_kwargs)}
+
+
+# declared fields with configured value None next to model_kwargs: max_tokens unset / temperature unset (+ an extra entry) / both
+OPT_CONFIGS = [{"temperature": 0.7, "max_tokens": None, "model_kwargs": {}}, {"temperature": None, "max_tokens": 128, "model_kwargs": {"top_p": 0.9}},
+               {"temperature": None, "max_tokens": None, "model_kwargs": {}}]
+
+
 def _make_llm(spec):
     if spec == "field":
         return FieldLLM()
+    if spec.startswith("opt"):
+        c = OPT_CONFIGS[int(spec[3:])]
+        return FieldOptLLM(temperature=c["temperature"], max_tokens=c["max_tokens"], model_kwargs=dict(c["model_kwargs"]))
     return KwargsLLM(model_kwargs=dict(KW_CONFIGS[int(spec[2:])]))
 
 
@@ -921,7 +970,8 @@ class Pipe(pipeline.Pipeline):
             return None
         msg = _Prob(f"LLM object parameters are {now}, configured {self.configured}")
         a, b = now.get("model_kwargs"), self.configured.get("model_kwargs")
-        msg.none_added = a is not None and all(k in a and a[k] == v for k, v in b.items()) and all(a[k] is None for k in a if k not in b)
+        msg.none_added = (a is not None and a != b and all(now[k] == self.configured[k] for k in now if k != "model_kwargs")
+                          and all(k in a and a[k] == v for k, v in b.items()) and all(a[k] is None for k in a if k not in b))
         msg.tick, msg.now = _tick(), now
         return msg
 
@@ -1398,6 +1448,14 @@ def _respell(spec, i, iso):
         out.append({"role": role, "content": ":".join(_item(m) for m in grp)})
     for where, direction in spec.get("shift") or []:
         out = _shift_boundary(out, int(where), int(direction))
+    if spec.get("ctx") and out and out[0]["role"] in ("user", "assistant") and isinstance(out[0]["content"], str):
+        # the other way round: a leading TEXT that is the JSON text of an object arrives as the context message it spells
+        try:
+            obj = json.loads(out[0]["content"])
+        except ValueError:
+            obj = None
+        if isinstance(obj, dict):
+            out[0] = {"role": "context", "content": obj}
     cut = int(spec.get("cut") or 0)
     if cut:
         out = out[: max(1, len(out) - cut % len(out))]
@@ -1606,6 +1664,24 @@ def _err_facts(case, convs, sched, labels):
     return nt
 
 
+def _opt_facts(case, shared, sched, labels):
+    """Labels of the LLM variant opt<n> (declared parameter configured as None next to model_kwargs), from the recorded
+    `with llm_params` blocks of the shared run.  True when a block altered such a parameter and a turn of ANOTHER conversation
+    was served on the instance afterwards."""
+    if not str(case.get("llm", "")).startswith("opt"):
+        return False
+    unset = {p for p, v in shared.configured.items() if v is None}
+    hits = {e["conv"] for e in shared.ptrace if e["ev"] == "enter" and unset & set(e["params"])}
+    if not hits:
+        return False
+    labels.append("block-alters-declared-parameter-configured-as-None")
+    first = min((x for x, i in enumerate(sched) if i in hits), default=None)
+    if first is not None and any(i != sched[first] for i in sched[first + 1:]):
+        labels.append("...then-other-conversation-served")
+        return True
+    return False
+
+
 def _seq_isolated(case, problems, canary=None):
     """Replays every conversation alone on a fresh instance (index order, so references can be resolved)."""
     cfg, api = case["config"], case.get("api", "sync")
@@ -1700,8 +1776,14 @@ def run_seq(case, problems):
     if case.get("shape"):
         labels.append("shape=" + str(case["shape"]))
     for s in case["convs"]:
+        if s.get("init") and s["init"][0].get("role") == "context" and s["init"][0].get("content") == {}:
+            labels.append("conversation-begins-with-EMPTY-context-message")
+        if s.get("users") and s["users"][0] and all(isinstance(p, str) for p in s["users"][0]) and ":".join(s["users"][0]) in JSON_TEXTS and not s.get("init"):
+            labels.append("first-user-text-is-':'-free-JSON-text({},[],{ })")
         if any("respell" in m for m in s.get("init", [])):
             labels.append("supplied-history-spells-other-transcript")
+            if any(m.get("ctx") for m in s.get("init", []) if "respell" in m):
+                labels.append("supplied-history-turns-leading-JSON-text-into-context-message")
             if any(m.get("shift") for m in s.get("init", []) if "respell" in m):
                 labels.append("supplied-history-with-a-message-boundary-moved-across-':'")
         elif s.get("init"):
@@ -1743,6 +1825,7 @@ def run_seq(case, problems):
     _rails_list_facts(cfg, convs, case["convs"], labels)
     nt = _greetvar_facts(cfg, case, convs, sched, labels) or nt
     nt = _err_facts(case, convs, sched, labels) or nt
+    nt = _opt_facts(case, shared, sched, labels) or nt
     if unjudged:
         labels.append("some-conversation-not-judged")
     labels.append(f"switches={min(switches, 4)}{'+' if switches > 4 else ''}")
@@ -2345,7 +2428,9 @@ SEQ_CFGS = [
     {"v": 1, "in": ["self"], "out": [], "dialog": False, "exc": False, "ret": 0},
     {"v": 1, "in": [], "out": ["self"], "dialog": True, "exc": False, "ret": 0},
 ]
-LLMS = ["field"] * 5 + ["kw0"] * 3 + ["kw1", "kw1", "kw2", "kw2"]
+OPT_LLMS = ["opt0", "opt0", "opt1", "opt2"]  # declared parameter(s) configured as None next to model_kwargs
+LLMS = ["field"] * 5 + ["kw0"] * 3 + ["kw1", "kw1", "kw2", "kw2"] + OPT_LLMS
+JSON_TEXTS = ["{}", "[]", "{ }"]  # JSON texts without ':' - the only context a text can spell without a separator is the EMPTY one
 TEMPS = [None, None, 0.0, 0.2, 0.5, 0.9, 1.3]
 MTS = [None, None, None, 16, 64]
 LATS = [0, 0.01, 0.05, 0.1, 0.1, 0.2, 0.3, 0.5, 1.0]
@@ -2637,6 +2722,13 @@ def _seq_case(draw, llms=None):
     total = sum(len(c["users"]) for c in convs)
     order = draw(st.lists(st.integers(0, n - 1), min_size=total, max_size=total))
     case = {"leg": "seq", "config": cfg, "llm": draw(st.sampled_from(llms or LLMS)), "api": draw(st.sampled_from(["sync", "async", "onecoro", "onecoro"])), "convs": convs, "order": order}
+    if case["llm"].startswith("opt") and draw(st.sampled_from([True, True, False])):
+        # LLM variant with a declared parameter configured as None: two thirds of these cases have a conversation whose
+        # options.llm_params names exactly such a parameter (the others reach one through the tasks' own llm_params, or not at all)
+        c = convs[draw(st.sampled_from([0, 0, 1, n - 1]))]
+        for p, key, vals in (("temperature", "temp", [0.0, 0.2, 0.9]), ("max_tokens", "mt", [16, 50, 64])):
+            if OPT_CONFIGS[int(case["llm"][3:])][p] is None and draw(st.sampled_from([True, True, False])):
+                c[key] = draw(st.sampled_from(vals))
     if intents:
         case["intents"] = intents
     if err:
@@ -2777,6 +2869,82 @@ def _shift_family(tier):
         if cfg.get("dialog"):
             case["intents"] = {u: SHIFT_INTENTS[(x + v) % len(SHIFT_INTENTS)] for x, u in enumerate(table)}
         yield case
+
+
+# ---- shape "':'-free JSON text / empty context" (leg seq) ----
+def _mk_json_case(form, jtext, tokens, n_a, k, extra_a, tail, cfg, llm, api, schedule="aba", order=None, third=None, routes=(0, 1, 2)):
+    """Conversation A and a conversation B whose client-supplied history re-spells A's transcript after its turn k, built from
+    distinct ':'-free tokens (replies from the case table, as in the separator-shift shape).
+    form "ctx":  A begins with the EMPTY context message {}; B's history has it as the user text "{}" and every role swapped.
+    form "text": A's first user text is `jtext` ("{}", "[]", "{ }"); B's history turns a leading text that is the JSON text of an
+                 object into the context message it spells (only "{}" can) and swaps every other role.
+    tail: B's history ends with one more assistant message; A has n_a turns before B and extra_a afterwards (schedule "aba"),
+    or the turns are interleaved as drawn."""
+    it = iter(tokens)
+    users_a = [[jtext if (form == "text" and t == 0) else next(it)] for t in range(n_a + extra_a)]
+    table = {u[0]: next(it) for u in users_a}
+    init_b = [{"respell": [0, k], "merge": [False], "roles": [1], "cut": 0, "ctx": form == "text"}]
+    if tail:
+        init_b.append({"role": "assistant", "text": [next(it)]})
+    users_b = [[next(it)], [next(it)]][: 1 + int(bool(extra_a))]
+    for u in users_b:
+        table[u[0]] = next(it)
+    conv = lambda users, init=(): {"init": list(init), "users": users, "log": False, "stream": False, "temp": None, "mt": None}  # noqa: E731
+    convs = [conv(users_a, [{"role": "context", "content": {}}] if form == "ctx" else []), conv(users_b, init_b)] + ([third] if third else [])
+    lens = [len(c["users"]) for c in convs]
+    if schedule == "aba":
+        order = _order_for([0] * n_a + [1] * lens[1] + [0] * extra_a + ([2] * lens[2] if third else []), lens)
+    case = {"leg": "seq", "shape": "json-text-or-empty-context/" + form, "config": cfg, "llm": llm, "api": api, "convs": convs, "order": list(order or []), "replies": table}
+    if cfg.get("dialog"):
+        case["intents"] = {u: SHIFT_INTENTS[int(routes[x % len(routes)]) % len(SHIFT_INTENTS)] for x, u in enumerate(table)}
+    return case
+
+
+@st.composite
+def _json_case(draw, llms=None):
+    """An eighth of the sequential cases."""
+    general = [c for c in SEQ_CFGS if not c["dialog"]]
+    cfg = draw(st.sampled_from(general)) if draw(st.booleans()) else draw(st.sampled_from(SEQ_CFGS))
+    tokens = draw(st.permutations(SHIFT_TOKENS))
+    form = draw(st.sampled_from(["ctx", "ctx", "text"]))
+    jtext = draw(st.sampled_from(["{}", "{}", "{}", "[]", "{ }"]))
+    n_a, extra_a = draw(st.sampled_from([1, 1, 2, 3])), draw(st.sampled_from([0, 1, 1]))
+    third = None
+    if draw(st.sampled_from([True, False, False])):
+        third = {"init": draw(_st_init(2)), "users": draw(st.lists(st.lists(_st_part(2), min_size=1, max_size=2), min_size=1, max_size=2)), "log": draw(st.sampled_from([False, False, True])),
+                 "stream": False, "temp": draw(st.sampled_from([None, None, 0.2])), "mt": None}
+    schedule = draw(st.sampled_from(["aba", "aba", "aba", None]))
+    total = n_a + extra_a + 2 + (len(third["users"]) if third else 0)
+    order = draw(st.lists(st.integers(0, 2), min_size=total, max_size=total))
+    routes = draw(st.lists(st.integers(0, 2), min_size=1, max_size=6))
+    return _mk_json_case(form, jtext, tokens, n_a, draw(st.integers(0, 2)), extra_a, draw(st.booleans()), cfg, draw(st.sampled_from(llms or LLMS)),
+                         draw(st.sampled_from(["sync", "async", "onecoro", "onecoro"])), schedule, order, third, routes)
+
+
+def _json_family(tier):
+    """Deterministic family "':'-free JSON text / empty context": A then B (B's supplied history spells A's transcript), then A
+    goes on; both forms, general mode and dialog rails.  Quick 3 cases."""
+    general = [c for c in SEQ_CFGS if not c["dialog"]][0]
+    plans = [("ctx", "{}", 1, 0, 1, True, general, "field", "async"), ("text", "{}", 2, 1, 1, False, general, "kw0", "onecoro"), ("ctx", "{}", 2, 1, 0, False, SEQ_CFGS[0], "field", "sync")]
+    if tier != "quick":
+        plans = [(form, j, n_a, k, x, tail, cfg, llm, api) for form in ("ctx", "text") for j in (JSON_TEXTS if form == "text" else ["{}"]) for n_a, k, x, tail in ((1, 0, 1, True), (2, 1, 1, False), (2, 0, 0, True))
+                 for cfg, llm, api in ((general, "field", "async"), (SEQ_CFGS[0], "kw0", "sync"), (SEQ_CFGS[3], "opt0", "onecoro"))]
+    for n, (form, j, n_a, k, x, tail, cfg, llm, api) in enumerate(plans):
+        yield _mk_json_case(form, j, SHIFT_TOKENS[n:] + SHIFT_TOKENS[:n], n_a, k, x, tail, cfg, llm, api)
+
+
+def _opt_family(tier):
+    """Deterministic family "declared parameter configured as None": conversation A passes options.llm_params for a parameter
+    the LLM object declares with the configured value None (or, with dialog rails and temperature unset, merely runs the tasks'
+    own llm_params), then B without options, then A again.  Quick 3 cases."""
+    general = [c for c in SEQ_CFGS if not c["dialog"] and not c["in"]][0]
+    conv = lambda users, temp=None, mt=None: {"init": [], "users": users, "log": False, "stream": False, "temp": temp, "mt": mt}  # noqa: E731
+    plans = [(general, "opt0", "async", None, 50), (SEQ_CFGS[0], "opt1", "sync", None, None), (general, "opt2", "onecoro", 0.2, 16)]
+    if tier != "quick":
+        plans = [(cfg, llm, api, t, m) for cfg in (general, SEQ_CFGS[0], SEQ_CFGS[5]) for llm in ("opt0", "opt1", "opt2") for api, t, m in (("async", None, 50), ("sync", 0.2, None), ("onecoro", 0.2, 16))]
+    for cfg, llm, api, t, m in plans:
+        yield {"leg": "seq", "shape": "declared-parameter-configured-as-None", "config": cfg, "llm": llm, "api": api,
+               "convs": [conv([["hi"], ["tell me a joke"]], t, m), conv([["hello there"], ["a"]])], "order": _order_for([0, 1, 0, 1], [2, 2])}
 
 
 @st.composite
@@ -3090,6 +3258,8 @@ def _ms_inline_family(tier):
 
 
 def enumerate_cases(tier):
+    yield from _json_family(tier)
+    yield from _opt_family(tier)
     yield from _err_family(tier)
     yield from _greetvar_family(tier)
     yield from _ms_family(tier)
@@ -3115,14 +3285,14 @@ def strategy(tier):
     """DESIGN 2.6: while a finding is listed *open*, most of the budget goes to the sub-domain that does not trigger it (the
     rest still exercises it: instances are classified by `known`, anything with another signature is reported)."""
     opened = _open_findings()
-    llms = ["field"] * 5 + ["kw0"] * 3 + (["kw1", "kw1", "kw2", "kw2"] if "C15-F9c" not in opened else ["kw1"])
+    llms = ["field"] * 5 + ["kw0"] * 3 + (["kw1", "kw1", "kw2", "kw2"] if "C15-F9c" not in opened else ["kw1"]) + OPT_LLMS
     conc = [_conc_case(llms)]
     if "C15-F9b" in opened:
         conc = [_conc_case(llms, quiet=True)] * 3 + conc
     shared = _v2_shared_names()
     v2 = _v2_case(False) if not shared else st.one_of(_v2_case(False), _v2_case(False), _v2_case(True)) if shared != "fixed" else st.one_of(_v2_case(False), _v2_case(True), _v2_case(True))
     # Colang 2.x turns are an order of magnitude slower than Colang 1.0 ones: one case in nine
-    seq = st.one_of(*([_seq_case(llms)] * 5 + [_shift_case(llms)] + [_overflow_case(llms)]))
+    seq = st.one_of(*([_seq_case(llms)] * 5 + [_shift_case(llms)] + [_overflow_case(llms)] + [_json_case(llms)]))
     return st.one_of(*([seq] * len(conc) + conc + [v2]))
 
 
